@@ -58,6 +58,10 @@ def view_apply(P, pos, rev, st, op):
         return list(pos), rev, st
     if k == "dg":
         return [i for i in pos if P[i] not in GAPS], rev, st
+    if k == "f":
+        # slice by a single-span feature: its retained residues, read on the feature's strand; op = ["f", name, Fabs-off, strand]
+        keep = sorted(i for i in op[2] if i in set(pos))
+        return (keep[::-1], True, st) if op[3] == "-" else (keep, False, st)
     raise ValueError(op)
 
 
@@ -195,7 +199,16 @@ def real_seq_apply(x, op):
         return _copy.deepcopy(x)
     if k == "dg":
         return x.degap()
+    if k == "f":
+        fs = [f for f in x.get_features(name=op[1], allow_partial=True)]
+        if len(fs) != 1:
+            raise Unreachable(f"feature {op[1]!r} is not returned by the view")
+        return x[fs[0]]
     raise ValueError(op)
+
+
+class Unreachable(Exception):
+    """the precondition of a history step does not hold (reported by another key); the case is skipped"""
 
 
 def windows(m):
@@ -220,9 +233,21 @@ def _plain(o):
     return o[0] == "s" and o[3] is None and o[1] is not None and o[2] is not None and o[1] >= 0 and o[2] >= 0
 
 
-def seq_other_ops(m):
+def seq_other_ops(m, rid):
+    P, off = SEQ_ROOTS[rid]
+    fops = [["f", n, [i - off for i in feat_positions(sp)], strand]
+            for n, _bt, sp, strand in SEQ_FEATS[rid] if len(sp) == 1 and n in ("a", "b", "h")]
     return [["rc"], ["cp"], ["dc"], ["dg"], ["s", None, None, -1], ["s", None, None, 2], ["s", 1, None, 2],
-            ["s", 1, m - 1, 3], ["s", m - 2, 0, -1], ["s", -3, None, None], ["s", None, -2, None], ["s", None, None, -2]]
+            ["s", 1, m - 1, 3], ["s", m - 2, 0, -1], ["s", -3, None, None], ["s", None, -2, None],
+            ["s", None, None, -2]] + fops
+
+
+def featsets_for(h, names):
+    """feature sets a history can be run with: a feature used for slicing has to be in the db"""
+    used = sorted({o[1] for o in h if o[0] == "f"})
+    if not used:
+        return names + ["*"]
+    return ["*"] + (used if len(used) == 1 else [])
 
 
 def gen_seq(tier, seed):
@@ -232,9 +257,8 @@ def gen_seq(tier, seed):
         for rid, (P, off) in SEQ_ROOTS.items():
             L = len(P)
             names = [f[0] for f in SEQ_FEATS[rid]]
-            featsets = names + ["*"]
             hist = [[]]
-            first = seq_step1(L, rich=True) + seq_other_ops(L)
+            first = seq_step1(L, rich=True) + seq_other_ops(L, rid)
             hist += [[o] for o in first]
             # depth 2
             if thorough:
@@ -245,12 +269,12 @@ def gen_seq(tier, seed):
             for o1 in lvl1:
                 pos, rev, st = view_apply(P, *view_root(P), o1)
                 m = len(pos)
-                second = seq_step1(m, rich=False) + (seq_other_ops(m) if m >= 2 else [["rc"], ["cp"], ["dg"]])
+                second = seq_step1(m, rich=False) + (seq_other_ops(m, rid) if m >= 2 else [["rc"], ["cp"], ["dg"]])
                 if not thorough:
                     second = second[::2] if m > 5 else second
                 hist += [[o1, o2] for o2 in second]
             for h in hist:
-                for fs in featsets:
+                for fs in featsets_for(h, names):
                     if not thorough and len(h) == 2 and fs not in ("a", "b", "e", "f", "*"):
                         continue
                     yield [new, rid, "db", fs, h]
@@ -265,11 +289,11 @@ def gen_seq(tier, seed):
                 h = []
                 for _d in range(3):
                     m = len(pos)
-                    cand = seq_step1(m, rich=False) + seq_other_ops(m) * 3 if m >= 2 else [["rc"], ["cp"], ["dg"]]
+                    cand = seq_step1(m, rich=False) + seq_other_ops(m, rid) * 3 if m >= 2 else [["rc"], ["cp"], ["dg"]]
                     o = rnd.choice(cand)
                     h.append(o)
                     pos, rev, st = view_apply(P, pos, rev, st, o)
-                yield [new, rid, "db", rnd.choice(featsets), h]
+                yield [new, rid, "db", rnd.choice(featsets_for(h, names)), h]
 
 
 def check_feature_slice(view, f, expected, tag, sig, label, ctx):
@@ -394,6 +418,8 @@ def run_history(x, hist, P, tag, case, apply):
         done.append(op)
         try:
             x = apply(x, op)
+        except Unreachable:
+            return x, pos, rev, st, ("skip",)
         except Exception as e:
             return x, pos, rev, st, ("fail", f"{tag}/history/{op_kind(op)}/raises:{type(e).__name__}/"
                                      f"view={view_sig(P, pos, rev, st, done[:-1])}",
